@@ -99,7 +99,7 @@ def ref_bug_step(parents, dims, psi, H, dt, fixed, bonds, rank_tol=1e-7):
     ch = children_of(parents)
     S = subtree_sites(parents)
     vec = psi.reshape(-1)
-    info = {"nodes": {}, "generic": True, "rank": {}, "newrank": {}}
+    info = {"nodes": {}, "generic": True, "rank": {}, "newrank": {}, "relsmin": 1.0}
     old_U, old_E = {}, {}
     for n in range(1, N):
         a, s, bh = schmidt(psi, S[n], allsites)
@@ -132,13 +132,16 @@ def ref_bug_step(parents, dims, psi, H, dt, fixed, bonds, rank_tol=1e-7):
         W = Q @ k1.reshape(r, -1).T          # evolved basis vectors in the subtree space, one per parent index
         Uold = old_U[n].reshape(-1, r)
         if fixed:
-            B, _ = orth_span(W)
+            B, sv = orth_span(W)
             if B.shape[1] != r:
                 info["generic"] = False
         else:
-            B, _ = orth_span(np.concatenate([Uold, W], axis=1))
+            B, sv = orth_span(np.concatenate([Uold, W], axis=1))
             if B.shape[1] != min(2 * r, Q.shape[1]):
                 info["generic"] = False
+        if B.shape[1]:
+            # conditioning of the new basis: its least determined direction is known up to (rounding / this number)
+            info["relsmin"] = min(info["relsmin"], float(sv[B.shape[1] - 1] / sv[0]))
         new_U[n] = B.reshape([dims[x] for x in S[n]] + [B.shape[1]])
         info["newrank"][n] = B.shape[1]
         info["nodes"][n] = {"eig": np.linalg.eigvalsh((heff + heff.conj().T) / 2), "k0norm": float(np.linalg.norm(k0))}
@@ -156,15 +159,19 @@ def ref_bug_step(parents, dims, psi, H, dt, fixed, bonds, rank_tol=1e-7):
 
 def n_keep(s, trunc):
     """number of singular values kept, from the documentation of SVDParameters (value mode: values below
-    total_tol or below rel_tol * largest are discarded; sum mode: the longest tail whose relative squared weight
-    stays below total_tol^2); at most max_bond_dim, at least one."""
-    mb, rel, tot, sum_trunc = trunc
+    total_tol or below rel_tol * largest are discarded; sum mode: the longest tail whose squared weight - relative to
+    the squared norm of all values unless `sum_renorm` is switched off - stays below total_tol^2); at most
+    max_bond_dim, at least one.  The tail is accumulated from the smallest value upwards (no cancellation).
+    trunc = (max_bond_dim, rel_tol, total_tol, sum_trunc[, sum_renorm])."""
+    mb, rel, tot, sum_trunc = trunc[:4]
+    norming = trunc[4] if len(trunc) > 4 else True
     if sum_trunc:
         nrm = float(np.sum(s ** 2))
         k = len(s)
         if nrm > 0:
+            den = nrm if norming else 1.0
             acc = 0.0
-            while k > 0 and (acc + s[k - 1] ** 2) / nrm < tot ** 2:
+            while k > 0 and (acc + s[k - 1] ** 2) / den < tot ** 2:
                 acc += s[k - 1] ** 2
                 k -= 1
         else:
@@ -174,6 +181,24 @@ def n_keep(s, trunc):
     if mb != INF:
         k = min(k, mb)
     return max(k, 1)
+
+
+# accuracy of the singular values of a dense matrix built from the library's tensors, relative to the largest one:
+# rounding of the contraction and of LAPACK is ~1e-16 .. 1e-15; a decision of the truncation rule that flips when the
+# values move by this much is a tie (both outcomes are correct)
+SV_NOISE = 3e-14
+SV_PROP = 1e-15       # honest size of that noise, used to propagate the uncertainty of a kept subspace one level down
+
+
+def keep_is_robust(s, trunc, d):
+    """does the truncation rule select the same number of values when every singular value moves by at most `d`
+    (absolute) and the tolerance by a relative 1e-6?"""
+    k = n_keep(s, trunc)
+    lo = np.maximum(s - d, 0.0)
+    hi = s + d
+    t_lo = tuple(trunc[:2]) + (trunc[2] * (1 + 1e-6) if trunc[2] not in (NEG_INF, INF) else trunc[2],) + tuple(trunc[3:])
+    t_hi = tuple(trunc[:2]) + (trunc[2] * (1 - 1e-6) if trunc[2] not in (NEG_INF, INF) else trunc[2],) + tuple(trunc[3:])
+    return n_keep(lo, t_lo) == k and n_keep(hi, t_hi) == k
 
 
 def ref_truncate(parents, dims, psi, trunc, bonds=None):
@@ -197,8 +222,12 @@ def ref_truncate(parents, dims, psi, trunc, bonds=None):
         t = m.reshape([dims[x] for x in order] + [dims[x] for x in rest])
         cur[0] = np.transpose(t, np.argsort(order + rest))
 
-    def walk(n, phi, phi_sites):
+    def walk(n, phi, phi_sites, unc):
+        # unc: bound on the error (spectral norm) of the orthonormal connecting tensor `phi` of this level caused by
+        # the rounding noise one level up (0 at the root, where phi is the state itself)
         projs = {}
+        uncs = {}
+        top = float(np.linalg.norm(phi)) if n == 0 else 1.0
         for c in ch[n]:
             cap = None
             if bonds is not None:
@@ -211,7 +240,8 @@ def ref_truncate(parents, dims, psi, trunc, bonds=None):
             order = [phi_sites.index(x) for x in S[c]]
             oth = [k for k in range(phi.ndim) if k not in order]
             m = np.transpose(phi, order + oth).reshape(int(np.prod([dims[x] for x in S[c]])), -1)
-            u, s, _ = np.linalg.svd(m, full_matrices=False)
+            u, s_full, _ = np.linalg.svd(m, full_matrices=False)
+            s = s_full
             if cap is not None:
                 s = s[:cap]
             k = n_keep(s, trunc)
@@ -220,8 +250,29 @@ def ref_truncate(parents, dims, psi, trunc, bonds=None):
                 near[0] = True
             if k < len(s) and abs(s[k - 1] - s[k]) < 1e-7 * s[0] and s[k] > 1e-9 * s[0]:
                 near[0] = True
-            if s[k - 1] <= 1e-9 * s[0]:
-                near[0] = True      # a numerically zero value is kept: its singular vector is arbitrary, the result not unique
+            # the selection must not depend on the rounding noise of the singular values (a value at the noise level
+            # next to the tolerance, an exactly redundant direction under a tolerance of 0, a tail sum on the
+            # threshold, ...): both outcomes are then correct
+            d = max(unc, SV_NOISE * top)
+            if not keep_is_robust(s, trunc, d):
+                near[0] = True
+            gap_out = float(s[k - 1] - (s_full[k] if k < len(s_full) else 0.0))
+            # the kept subspace is known up to (noise / gap to the first value outside of it); one level down the
+            # connecting tensor is an orthonormal basis of that subspace in which every direction counts alike
+            uncs[c] = min(1.0, 2.0 * max(unc, SV_PROP * top) / gap_out) if gap_out > 0 else 1.0
+            tail0 = float(s_full[k]) if k < len(s_full) else 0.0      # first value that is not kept (cap or rule)
+            if unc > 0 and tail0 > 1e-9 * top:
+                # something of significant size is cut off at a level whose connecting tensor is only known up to `unc`
+                # (a smaller tail is harmless: every column of the connecting tensor is reproduced up to tail0)
+                if k < len(s):
+                    gap_in = float(s[k - 1] - s[k])
+                    if gap_in <= 0 or unc / gap_in > 1e-8:
+                        near[0] = True      # the projector of this level inherits an ambiguity above the comparison tolerance
+                elif tail0 <= 10.0 * unc:
+                    # cut off only because the library's tensor cannot have more than `cap` values here: the surplus is the
+                    # pollution of this reference's connecting tensor by an undetermined direction (a numerically zero
+                    # value kept one level up; in the library that direction lies inside its augmented basis)
+                    near[0] = True
             ranks[c] = k
             # below the root the values are those of an orthonormal connecting tensor: the state error is at most
             # (discarded weight) x (norm of the state)
@@ -231,9 +282,9 @@ def ref_truncate(parents, dims, psi, trunc, bonds=None):
             apply_proj(c, projs[c])
         for c in ch[n]:
             Pc = projs[c]
-            walk(c, Pc.reshape([dims[x] for x in S[c]] + [Pc.shape[1]]), S[c])
+            walk(c, Pc.reshape([dims[x] for x in S[c]] + [Pc.shape[1]]), S[c], uncs[c])
 
-    walk(0, psi.reshape(list(psi.shape) + [1]), allsites)
+    walk(0, psi.reshape(list(psi.shape) + [1]), allsites, 0.0)
     return cur[0], ranks, disc, near[0]
 
 
@@ -294,6 +345,7 @@ class Tracer:
         self.bcs = []           # C09W hook: (node, basis-change matrix) in the order they are computed
         self.active = False
         self.after_trunc = False
+        self.pull_perms = Counter()
 
     # -- versions -----------------------------------------------------------------------------
     def old_version(self, state, x):
@@ -423,6 +475,17 @@ class Tracer:
             if T.active:
                 v = T.version(old_ttn, node_id)
                 T.events.append(("Pull", nnum(node_id), v))
+                try:        # how the children of the two states are ordered relative to each other
+                    mod = a[0] if a else k.get("mod_fct")
+                    oc = list(old_ttn.nodes[node_id].children)
+                    pm = [oc.index(mod(c) if mod else c) for c in new_ttn.nodes[node_id].children]
+                    T.pull_perms["in any order (calls)"] += 1
+                    if pm != list(range(len(pm))):
+                        T.pull_perms["permuted"] += 1
+                    if pm != [pm.index(j) for j in range(len(pm))]:
+                        T.pull_perms["not an involution (3-cycle or longer)"] += 1
+                except Exception:  # noqa
+                    T.pull_perms["unreadable"] += 1
                 T.in_pull = True
                 try:
                     r = o_pull(old_ttn, new_ttn, node_id, *a, **k)
@@ -832,6 +895,47 @@ def eff_bond_after_recentring(state):
     return None
 
 
+def prepare_caller_state(ttns, case):
+    """what a caller may have done with the state before handing it to the integrator (all optional keys of a case):
+    `grade`   {node: a}: slice k of the parent leg of the node is multiplied by 10^(-a k): Schmidt spectra graded over many
+              orders of magnitude (an ill-conditioned but valid state; the bond dimensions still are the Schmidt ranks);
+    `gauge`   {node: e} and `norm10` E: the tensor of the node is multiplied by 10^e and its parent's by 10^-e (the state is
+              unchanged, its tensors are badly scaled), the root by 10^E (a state of tiny / huge norm);
+    `prep`    [[centre, mode], ...]: the caller brought the state into canonical form at `centre` (first entry) and moved the
+              centre on (further entries), each with the split mode `mode` ("keep" | "reduced")."""
+    from pytreenet.util.tensor_splitting import SplitMode
+    grade = case.get("grade") or {}
+    gauge = case.get("gauge") or {}
+    for nid in list(ttns.nodes):
+        i = nnum(nid)
+        fac = None
+        t = ttns.tensors[nid]
+        nd = ttns.nodes[nid]
+        a = grade.get(str(i), grade.get(i))
+        if a and not nd.is_root():
+            g = 10.0 ** (-float(a) * np.arange(t.shape[0]))
+            t = t * g.reshape([-1] + [1] * (t.ndim - 1))
+            fac = True
+        e = 0.0
+        if not nd.is_root():
+            e += float(gauge.get(str(i), gauge.get(i, 0.0)) or 0.0)
+        for c in nd.children:
+            e -= float(gauge.get(str(nnum(c)), gauge.get(nnum(c), 0.0)) or 0.0)
+        if nd.is_root():
+            e += float(case.get("norm10") or 0.0)
+        if e:
+            t = t * 10.0 ** e
+            fac = True
+        if fac:
+            ttns.tensors[nid] = t
+    modes = {"keep": SplitMode.KEEP, "reduced": SplitMode.REDUCED}
+    for j, (centre, mode) in enumerate(case.get("prep") or []):
+        if j == 0:
+            ttns.canonical_form(f"n{centre}", mode=modes[mode])
+        else:
+            ttns.move_orthogonalization_center(f"n{centre}", mode=modes[mode])
+
+
 def _run_case(case):
     """executed in a worker process: builds the inputs, runs the real classes, returns the observation."""
     rng = random.Random(case["seed"])
@@ -854,6 +958,7 @@ def _run_case(case):
                 mask[tuple([slice(0, 1)] * nv + [slice(None)] * (t.ndim - nv))] = False
                 t2[mask] = 0
                 ttns.tensors[nid] = t2
+    prepare_caller_state(ttns, case)
     ids = [f"n{i}" for i in range(n)]
     dims = util.phys_dims(ttns)
     dlist = [dims[i] for i in ids]
@@ -871,16 +976,23 @@ def _run_case(case):
         mb = INF if trunc[0] == "inf" else trunc[0]
         rel = NEG_INF if trunc[1] == "-inf" else trunc[1]
         tot = NEG_INF if trunc[2] == "-inf" else trunc[2]
-        trunc_t = (mb, rel, tot, bool(trunc[3]))
+        sum_renorm = bool(trunc[4]) if len(trunc) > 4 else True
+        trunc_t = (mb, rel, tot, bool(trunc[3]), sum_renorm)
         svd = SVDParameters(max_bond_dim=mb, rel_tol=rel, total_tol=tot)
         bug_kwargs["sum_trunc"] = bool(trunc[3])
+        if len(trunc) > 4:
+            bug_kwargs["sum_renorm"] = sum_renorm
     else:
-        trunc_t = (INF, NEG_INF, NEG_INF, False)
+        trunc_t = (INF, NEG_INF, NEG_INF, False, True)
     dt = case["dt"]
     nsteps = case["nsteps"]
     Hnorm = float(np.linalg.norm(H, 2))
     caller_fp = logical_fingerprint(ttns)
     ob = {"runs": {}, "Hnorm": Hnorm, "n": n}
+    # what the caller hands over (read off a copy: reading tensors applies the lazy leg permutations)
+    given = copy.deepcopy(ttns)
+    ob["given"] = {"psi": util.dense_ttn(given, ids), "shapes": shapes_of(given), "struct": structure_of(given),
+                   "centre": given.orthogonality_center_id}
     bugmod = importlib.import_module("pytreenet.time_evolution.bug")
     for deep in (False, True):
         run = {"steps": [], "exception": None}
@@ -958,6 +1070,7 @@ def _run_case(case):
             st["bcs"] = tracer.bcs        # C09W hook
             st["alias"] = tracer.alias
             st["move_modes"] = sorted(set(tracer.move_modes))
+            st["pull_perms"] = dict(tracer.pull_perms)
             st["psi1"] = util.dense_ttn(state1, ids)
             st["bonds1"] = bonds_of(state1, n)
             st["shapes1"] = shapes_of(state1)
@@ -975,6 +1088,30 @@ def _run_case(case):
                 st["ref_trunc_of_lib_aug"] = rt
                 if ref.get("generic") and "psi1" in ref:
                     st["ref_trunc"] = ref_truncate(par, dlist, ref["psi1"], trunc_t, ref["newrank"])
+        if case.get("reset") and not run["exception"]:
+            # history: reset_to_initial_state, then the first step again (no instrumentation)
+            rs = {}
+            run["reset"] = rs
+            try:
+                ev.reset_to_initial_state()
+                sr = ev.state
+                rs["psi0"] = util.dense_ttn(sr, ids)
+                rs["shapes0"] = shapes_of(sr)
+                rs["struct0"] = structure_of(sr)
+                rs["centre0"] = sr.orthogonality_center_id
+                rs["defect0"] = isometry_defect_root(sr, False)
+                rs["defect0p"] = isometry_defect_root(sr, True)
+                rs["is_initial_object"] = sr is ev.initial_state
+                ev.run_one_time_step()
+                s1 = ev.state
+                rs["psi1"] = util.dense_ttn(s1, ids)
+                rs["shapes1"] = shapes_of(s1)
+                rs["struct1"] = structure_of(s1)
+                rs["centre1"] = s1.orthogonality_center_id
+                rs["defect1"] = isometry_defect_root(s1, False)
+                rs["defect1p"] = isometry_defect_root(s1, True)
+            except Exception as e:  # noqa
+                rs["exception"] = f"{type(e).__name__}: {e}"
         run["caller_unchanged"] = logical_fingerprint(ttns) == caller_fp
     ob["H"] = H
     ob["trunc_t"] = trunc_t
@@ -997,7 +1134,20 @@ class C09(Prop):
             "dimensions 1-3; bond dimensions either realisable as Schmidt ranks (step-equality clause) or arbitrary 1-4 incl. zero-padded "
             "(redundant) bonds; random Hermitian Hamiltonians (TTNO built by the library, dense matrix by Kronecker products); both "
             "integrators, both copy strategies on every case, 1-3 consecutive steps, truncation off / max_bond_dim / rel_tol / total_tol / "
-            "sum mode; saturated two-node cases. non-trivial = at least 2 nodes; distinct by case content")
+            "sum mode; saturated two-node cases. GIVEN STATES THAT ALREADY HAVE AN ORTHOGONALITY CENTRE: the caller brought the state "
+            "into canonical form at a random node (root or below) with the bond-keeping or the reduced split and possibly moved the "
+            "centre on, all flavours (generic / redundant / zero-padded bonds), both integrators; the oracle compares with the state the "
+            "caller handed over (state vector at the start, identifiers / relations, for fixed rank ALL tensor shapes after every step). "
+            "HISTORIES: on half of these cases (and a seventh of the many-scales cases) reset_to_initial_state followed by one more step (same clauses, same result as the "
+            "first step where the scheme defines it uniquely). MANY SCALES: low-rank initial states on trees with 2-5 nodes and physical "
+            "dimensions up to 6 whose bonds grow over 2-4 consecutive steps with dt = 10^-[2,4.5] (the k-th new direction carries a weight "
+            "~dt^k), Schmidt spectra graded by 10^-[1,6] per bond index with dt = 10^-[3,8], plain cases with dt = 10^-[1,6]; on a third of "
+            "them badly scaled tensors (10^+-3 moved across every edge, the state unchanged) and a norm of 10^[-6,6]; truncation by the "
+            "summed rule relative or absolute (sum_renorm off), the value rule relative or absolute, tolerances 1e-15 (default) .. 1e-6, "
+            "optionally a small max_bond_dim; the reference accumulates the discarded weight from the smallest value upwards and every "
+            "tolerance of the oracle is relative to the norm of the state / of the Hamiltonian; a selection that flips when the singular "
+            "values move by 3e-14 (relative) is a tie and skipped, and the inherited uncertainty of a kept subspace is followed down the "
+            "tree. non-trivial = at least 2 nodes; distinct by case content")
     clauses = [
         ("F", "order: every node is evolved exactly once, in post-order (children fully before their parent, root last) (C09_bug_order*)"),
         ("F", "environment provenance: at the evolution of a non-root node the parent-side block consists of OLD tensors of the state re-centred "
@@ -1063,6 +1213,13 @@ class C09(Prop):
         ("O", "fixed-rank Galerkin step never increases the norm: unitary after a contraction M = U_old^H U_new (Section with matrix-algebra laws as hypotheses)"),
         ("V", "step equality with the scheme, spectra of every projected Hamiltonian, conservation up to the discarded weight, saturated two-node "
               "exactness, canonical root, bond limit, both copy strategies equal, caller's/parent's state untouched: dense reference + runtime monitors"),
+        ("V", "relative to the state the CALLER handed over (with or without an orthogonality centre, centre anywhere, either split mode): the "
+              "integrator starts from the same state vector, keeps identifiers / relations and - fixed rank - every tensor shape of the given "
+              "state after every step and after reset_to_initial_state + step; the kept bond dimensions of the rank-adaptive variant equal "
+              "those of the documented selection rule (summed relative / summed absolute / value rule, max_bond_dim) evaluated on the exact "
+              "singular values of the augmented state, also for singular values spread over 14 orders of magnitude (ties at rounding level "
+              "excluded); in pull_tensor_from_different_ttn the children of the two states never were in a different order in any explored "
+              "step (counter in the distribution)"),
     ]
     trusted_base = ["LAPACK QR/SVD/eigh and expm_multiply/expm are not modelled (validated numerically against the dense reference)",
                     "instrumentation: wrappers around the functions of time_evo_util/common_bug.py, SandwichCache/PartialTreeCachDict and "
@@ -1116,6 +1273,63 @@ class C09(Prop):
                 cases.append({"kind": "two", "parents": [None, 0], "phys": [d0, d1], "bond": {"1": d1}, "seed": rng.randrange(10 ** 9),
                               "method": method, "dt": rng.choice([0.05, 0.3, 1.0]), "nsteps": rng.choice([1, 2]), "nterms": 4, "support": 2,
                               "coeffs": False, "flavour": "saturated", "padzero": False, "trunc": None, "src": "two"})
+        # ---- the caller's state already HAS an orthogonality centre: any node, established with either split mode
+        # (bond-keeping or reduced), possibly moved on afterwards; history: reset_to_initial_state and step again
+        for _ in range(ctx.scale(36, 500) * budget_scale):
+            k = rng.choice([2, 3, 4, 4, 5, 5, 6])
+            par = util.random_parents(rng, k)
+            n = len(par)
+            method = rng.choice(["fbug", "fbug", "bug"])
+            flavour = rng.choice(["redundant", "redundant", "generic", "padzero"])
+            phys = [rng.choice([2, 3] if n <= 5 else [2]) for _ in range(n)]
+            if flavour != "generic" and rng.random() < 0.2:
+                phys[rng.randrange(n)] = 1
+            if flavour == "generic":
+                bond = feasible_bonds_fix(par, phys, feasible_bonds(rng, par, phys, rng.choice([2, 2, 3])))
+            else:
+                bond = {i: rng.choice([1, 2, 3, 4] if n <= 5 else [1, 2, 3]) for i in range(1, n)}
+            prep = [[rng.randrange(n), rng.choice(["keep", "keep", "reduced"])]]
+            if rng.random() < 0.3:
+                prep.append([rng.randrange(n), rng.choice(["keep", "reduced"])])
+            cases.append({"kind": "step", "parents": par, "phys": phys, "bond": {str(k): v for k, v in bond.items()},
+                          "seed": rng.randrange(10 ** 9), "method": method, "dt": rng.choice([0.02, 0.05, 0.1, 0.25]),
+                          "nsteps": rng.choice([1, 1, 2]), "nterms": max(2, 2 * n), "support": rng.choice([2, 2, 3]),
+                          "coeffs": rng.random() < 0.3, "flavour": flavour, "padzero": flavour == "padzero",
+                          "trunc": rng.choice(truncs) if method == "bug" else None, "src": "precentred", "prep": prep,
+                          "reset": rng.random() < 0.5})
+        # ---- many scales at once: Schmidt spectra graded over many orders of magnitude, step sizes from 1e-1 down to
+        # 1e-6, low-rank initial states whose bonds grow over several consecutive steps (the k-th new direction carries a
+        # weight ~ dt^k), badly scaled tensors / states of tiny or huge norm; tolerances from the default 1e-15 up to
+        # 1e-6 in the summed (relative and absolute) and in the value rule
+        for _ in range(ctx.scale(44, 700) * budget_scale):
+            sub = rng.choice(["growth", "growth", "graded", "graded", "plain"])
+            k = rng.choice([2, 2, 3, 3, 4, 4, 5])
+            par = util.random_parents(rng, k)
+            n = len(par)
+            method = rng.choice(["bug", "bug", "bug", "bug", "fbug"])
+            phys = [rng.choice([3, 4, 5, 6] if n <= 2 else [2, 3, 4] if n <= 3 else [2, 3] if n <= 4 else [2, 2, 3]) for _ in range(n)]
+            cap = {"growth": rng.choice([1, 1, 2]), "graded": rng.choice([2, 3, 4]), "plain": rng.choice([1, 2, 3])}[sub]
+            bond = feasible_bonds_fix(par, phys, feasible_bonds(rng, par, phys, cap))
+            dt10 = {"growth": rng.uniform(2.0, 4.5), "graded": rng.uniform(3.0, 8.0), "plain": rng.uniform(1.0, 6.0)}[sub]
+            c = {"kind": "step", "parents": par, "phys": phys, "bond": {str(k): v for k, v in bond.items()},
+                 "seed": rng.randrange(10 ** 9), "method": method, "dt": float(10.0 ** -dt10),
+                 "nsteps": {"growth": rng.choice([2, 3, 4] if n <= 4 else [2, 3]), "graded": rng.choice([1, 1, 2]),
+                            "plain": rng.choice([1, 2, 3])}[sub], "nterms": max(2, 2 * n),
+                 "support": rng.choice([2, 2, 3]), "coeffs": rng.random() < 0.3, "flavour": "multiscale", "padzero": False,
+                 "trunc": None, "src": "multiscale", "sub": sub}
+            if sub == "graded":
+                c["grade"] = {str(i): round(rng.uniform(1.0, 6.0), 1) for i in range(1, n)}
+            if rng.random() < 0.35:
+                c["gauge"] = {str(i): round(rng.uniform(-3, 3), 2) for i in range(1, n)}
+                c["norm10"] = round(rng.uniform(-6, 6), 2)
+            if method == "bug":
+                tol = rng.choice([1e-15, 1e-14, 1e-13, 1e-12, 1e-12, 1e-11, 1e-10, 1e-8, 1e-6])
+                c["trunc"] = rng.choice([[100, 0.0, tol, True], [100, 0.0, tol, True], [100, "-inf", tol, True], [100, "-inf", tol, True, False],
+                                         [100, tol, 0.0, False], [100, "-inf", tol, False], [rng.choice([2, 3, 4]), 0.0, tol, True]])
+            if rng.random() < 0.15:
+                c["prep"] = [[rng.randrange(n), rng.choice(["keep", "reduced"])]]
+            c["reset"] = rng.random() < 0.15
+            cases.append(c)
         return cases
 
     def nontrivial(self, case):
@@ -1127,7 +1341,21 @@ class C09(Prop):
             c[f"nodes={len(x['parents'])}"] += 1
             c[f"{x['method']}:{x['flavour']}"] += 1
             c["trunc=" + ("none" if not x.get("trunc") else "on")] += 1
+            if x.get("trunc") and x["trunc"][3]:
+                c["trunc: summed rule" + (" (absolute)" if len(x["trunc"]) > 4 and not x["trunc"][4] else "")] += 1
             c[f"steps={x['nsteps']}"] += 1
+            if x.get("prep"):
+                root_only = all(p[0] == 0 for p in x["prep"])
+                c["given state: centre " + ("at the root" if root_only else "below the root") + " (" + "+".join(p[1] for p in x["prep"]) + ")"] += 1
+            if x.get("reset"):
+                c["history: reset_to_initial_state + step"] += 1
+            if x.get("grade"):
+                c["given state: graded Schmidt spectra"] += 1
+            if x.get("gauge") or x.get("norm10"):
+                c["given state: badly scaled tensors / norm"] += 1
+            if x.get("src") == "multiscale":
+                c["multiscale: " + x.get("sub", "plain")] += 1
+                c["dt: 1e-%d..1e-%d" % (int(np.floor(-np.log10(x["dt"]))) + 1, int(np.floor(-np.log10(x["dt"]))))] += 1
         c.update(getattr(self, "_stats", {}))
         try:
             from props import c09w
@@ -1234,6 +1462,8 @@ class C09(Prop):
         trunc = ob["trunc_t"]
         par = case["parents"]
         depth2 = any(par[i] not in (None, 0) for i in range(n))
+        given = ob.get("given")
+        gscale = max(float(np.linalg.norm(given["psi"])), 1e-300) if given is not None else 1.0
         for deep in (False, True):
             run = ob["runs"][deep]
             tag = f"{case['method']} deep={deep}"
@@ -1252,6 +1482,19 @@ class C09(Prop):
                 psi0, psi1, aug = st["psi0"], st["psi1"], st["aug"]
                 n0 = float(np.linalg.norm(psi0))
                 scale = max(n0, 1e-300)
+                for kk, vv in (st.get("pull_perms") or {}).items():
+                    self._stats["pull_tensor_from_different_ttn: children " + kk] += vv
+                # --- the state the integrator was given
+                if given is not None:
+                    if s == 0:
+                        d = float(np.linalg.norm(psi0 - given["psi"]))
+                        if d > 1e-9 * gscale:
+                            return f"{w}: the integrator starts from a state vector that differs from the one it was given by {d:.3e} (relative {d / gscale:.2e})"
+                    if st["struct1"] != given["struct"]:
+                        return f"{w}: identifiers / parent-child relations differ from the given state's: {st['struct1']} was {given['struct']}"
+                    if fixed and st["shapes1"] != given["shapes"]:
+                        bad = {k: (given["shapes"].get(k), v) for k, v in st["shapes1"].items() if given["shapes"].get(k) != v}
+                        return f"{w}: fixed rank did not keep the tensor shapes of the given state (centre {given['centre']}): (given, now) = {bad}"
                 after_nc = " [after-noncanonical-truncation]" if st["defect0"] > 1e-8 else ""
                 redundant = case["flavour"] in ("redundant", "padzero")
                 # --- monitors
@@ -1310,6 +1553,9 @@ class C09(Prop):
                         return f"{w}: norm changed by {abs(n1 - n0):.3e} > truncation tolerance {bound:.3e}"
                     if abs(e1 - e0) > Hn * (2 * scale * bound + bound ** 2) + 1e-8 * Hn * scale ** 2:
                         return f"{w}: energy changed by {abs(e1 - e0):.3e} beyond the truncation tolerance"
+                    if trunc[:4] != (INF, NEG_INF, NEG_INF, False):
+                        self._stats["truncation: " + ("skipped (tie at rounding level)" if near else "compared with the reference"
+                                                      if (st["defect0"] <= 1e-8 and not redundant) else "bounds only")] += 1
                     if not near and st["defect0"] <= 1e-8:
                         if aug.get("bonds_t") != rk and not redundant:
                             return f"{w}: bond dimensions after truncation {aug.get('bonds_t')} reference {rk}"
@@ -1330,7 +1576,10 @@ class C09(Prop):
                         return f"{w}: state after the update differs from the BUG scheme's by {d:.3e} (relative {d / scale:.2e})"
                     for (nd, eig, nrm, herm, dtt, fw) in st["numeric"]:
                         rn = ref["nodes"][nnum(nd)]
-                        if len(eig) != len(rn["eig"]) or float(np.max(np.abs(np.sort(eig) - np.sort(rn["eig"])))) > 1e-8 * Hn:
+                        # every direction of a new basis counts alike in the projected Hamiltonian, also one that is the
+                        # normalised difference of nearly equal vectors (tiny dt x tiny Schmidt value): it is determined up
+                        # to rounding / (relative size of that difference) only
+                        if len(eig) != len(rn["eig"]) or float(np.max(np.abs(np.sort(eig) - np.sort(rn["eig"])))) > (1e-8 + 1e-14 / ref.get("relsmin", 1.0)) * Hn:
                             return f"{w}: spectrum of the projected Hamiltonian at {nd} differs from old-parent/new-children projection"
                         if abs(nrm - rn["k0norm"]) > 1e-8 * scale:
                             return f"{w}: norm of the tensor evolved at {nd} is {nrm!r}, scheme {rn['k0norm']!r}"
@@ -1348,6 +1597,38 @@ class C09(Prop):
                     d = float(np.linalg.norm(exact - psi1))
                     if d > 1e-8 * scale:
                         return f"{w}: saturated two-node step is not exact (deviation {d:.3e})"
+            rs = run.get("reset")
+            if rs is not None and run["steps"] and "psi1" in run["steps"][0]:
+                w = f"{tag} after reset_to_initial_state"
+                self._stats["history: reset + step"] += 1
+                first = run["steps"][0]
+                if "exception" in rs:
+                    return f"{w}: raised {rs['exception']}"
+                if rs["is_initial_object"]:
+                    return f"{w}: the stored initial state itself is evolved"
+                d = float(np.linalg.norm(rs["psi0"] - given["psi"]))
+                if d > 1e-9 * gscale:
+                    return f"{w}: the state differs from the given one by {d:.3e}"
+                if rs["centre0"] != "n0" or rs["centre1"] != "n0":
+                    return f"{w}: orthogonality centre {rs['centre0']} / after the step {rs['centre1']}"
+                if rs["struct0"] != given["struct"] or rs["struct1"] != given["struct"]:
+                    return f"{w}: identifiers / parent-child relations differ from the given state's"
+                if fixed and (rs["shapes0"] != given["shapes"] or rs["shapes1"] != given["shapes"]):
+                    return (f"{w}: fixed rank did not keep the tensor shapes of the given state (centre {given['centre']}): "
+                            f"{rs['shapes0']} / after the step {rs['shapes1']}, given {given['shapes']}")
+                dfx = rs["defect1p"] if (fixed and (case["flavour"] in ("redundant", "padzero") or rs["defect0"] > 1e-8)) else rs["defect1"]
+                if dfx > 1e-8:
+                    return f"{w}: the state returned by the step is not canonical at the root (isometry defect {dfx:.2e})"
+                ref0 = first["ref"]
+                if ref0.get("generic") and "psi1" in ref0 and first["defect0"] <= 1e-8:
+                    # the scheme defines the result of a step on the given state uniquely: the same as the first time
+                    near0 = (not fixed) and ((first.get("ref_trunc") or (0, 0, 0, True))[3] or first["ref_trunc_of_lib_aug"][3])
+                    if not near0:
+                        d = float(np.linalg.norm(rs["psi1"] - first["psi1"]))
+                        if d > 1e-8 * gscale:
+                            return f"{w}: the step gives a state that differs by {d:.3e} from the first step of the first run"
+                        if rs["shapes1"] != first["shapes1"]:
+                            return f"{w}: the step gives shapes {rs['shapes1']}, the first step of the first run gave {first['shapes1']}"
             if not run.get("caller_unchanged", True):
                 return f"{tag}: the caller's state was modified"
         # both copy strategies
